@@ -111,10 +111,8 @@ def plumbing(ctx):
     gfp = [n for n in dix.nodes if n.get("k") == "call" and callee(n) == GET_FIXED_POINT]
     okc = False
     for n in gfp:
-        for a in dix.ancestors(n):
-            if a.get("k") == "if" and contains(a["then"], n):
-                if any(is_eq_test(c, mode, "ExprTransformMode::FixedPoint") for c in conjuncts(a["cond"])) and is_local(n["args"][0], tmap):
-                    okc = True
+        if norm.enum_guarded(dix, n, mode, "ExprTransformMode::FixedPoint") and is_local(n["args"][0], tmap):
+            okc = True
     ctx.inst("R13.2", "do_transform_expr:children-through-fixed-point", okc, d["span"], "in FixedPoint mode the children of a node must be looked up with get_fixed_point(transformed, child)")
     # re-queue
     pushes = [n for n in dix.nodes if n.get("k") == "mcall" and n["name"] == "push" and is_local(n["recv"], todo)]
